@@ -608,7 +608,7 @@ class GBNFCompiler:
         rules: list[str] = []
 
         # Add primitives
-        rules.append("# GBNF Grammar for OCTAVE schema: " + schema.name)
+        rules.append("# GBNF Grammar for OCTAVE schema: " + schema.name.replace("\r", " ").replace("\n", " "))
         rules.append("")
 
         # Whitespace rule
@@ -646,7 +646,7 @@ class GBNFCompiler:
 
         # Build document structure
         if include_envelope:
-            schema_name = schema.name.upper()
+            schema_name = self._escape_literal(schema.name.upper())
             rules.append(f'envelope-start ::= "==={schema_name}==="')
             rules.append('envelope-end ::= "===END==="')
             rules.append("")
